@@ -55,6 +55,7 @@ type Addr struct {
 	typ    types.Type
 	slice  Val
 	idx    string
+	rebind  *Addr  // aElem: the local variable holding the slice (an element store rebinds it)
 	foreign string // aElem: the slice comes from outside the function (see foreignSlice)
 	meta   bool // interior pointer to an embedded ObjectMeta: as a value it is the outer reference
 }
@@ -170,6 +171,7 @@ type fnCtx struct {
 	inlineStack []*ssa.Function
 	aliasOf map[string]Val
 	anchorsSeen map[*clause]int
+	curState *state // the state of the instruction being executed (for obligations raised from value lookups)
 	alias    map[string]string // contract name of a local -> name of the (renamed) variable in the code
 	noDef    bool // terms under a quantifier: no top-level abbreviations
 	aliasOff map[string]string // offset of a reslice x[lo:..] in its source
@@ -530,6 +532,17 @@ func (fc *fnCtx) store(st *state, a *Addr, v Val) {
 				"assignment to an element of a slice obtained from "+a.foreign+": the backing array is shared with its other holders", token.NoPos)
 			return
 		}
+		if a.rebind != nil {
+			// x[i] = v on a slice this function created and holds in a local variable: the variable is rebound to
+			// the updated slice value (other variables sharing the backing array are not updated: slices are values)
+			cur := fc.load(st, a.rebind)
+			if cur.T == a.slice.T {
+				nv := Val{T: fc.def(cur.S, fmt.Sprintf("((as mkslice %s) (store (sarr %s) %s %s) (slen %s))", cur.S, cur.T, a.idx, v.T, cur.T)), S: cur.S, Ty: cur.Ty}
+				fc.store(st, a.rebind, nv)
+				fc.trusted["element assignment to a locally created slice rebinds the variable holding it (no other alias of the backing array is updated)"] = true
+				return
+			}
+		}
 		unsup("store through slice element (slice aliasing is not modelled)")
 	case aPath:
 		unsup("store of big struct at %s", a.prefix)
@@ -588,6 +601,18 @@ func (fc *fnCtx) val(v ssa.Value) Val {
 		}
 		return Val{T: name, S: "V", Ty: c.Type()}
 	case *ssa.Global:
+		if c.Pkg != nil && strings.HasPrefix(c.Pkg.Pkg.Path(), "github.com/boz/kcache") && fc.curState != nil {
+			// the address of a package-level variable of the library is taken (e.g. a method call on a package-level
+			// cache): state shared between calls, which no function under contract is specified to use.  A failed
+			// frame obligation, not an unsupported construct.
+			key := "frame.package-level-state." + c.Name()
+			if !fc.allocFacts[key] {
+				fc.allocFacts[key] = true
+				fc.assert(fc.curState, "frame", key, "false",
+					"the function uses the package-level variable "+c.Name()+": state shared between calls, outside every contract's frame", token.NoPos)
+			}
+			return Val{T: fc.fresh("global!"+sanitize(c.Name()), "V"), S: "V", Ty: c.Type()}
+		}
 		unsup("global %s used as value", c.Name())
 	case *ssa.Builtin:
 		unsup("builtin %s used as value", c.Name())
